@@ -72,9 +72,9 @@ CLAIMED = {
    tech="contract-based deductive verification: ghost resource counter with per-call and per-event bounds, cut-point VCs over go/ssa, z3/cvc5; known-findings file",
    ref="DESIGN.md sections 6 (C20) and 7"),
  "C04": dict(
-   text="Proof of the two parts of the custom float parser that a contract can pin to a reference: (a) every row of internal/fp's detailedPowersOfTen (696 x 2 words), powersOfTen and float64pow10 tables is a ground obligation: equal to the mathematical definition (128-bit truncated 10^q mantissa computed with exact big-integer arithmetic, exactly representable float64 powers) and equal to the pinned reference copy of Go 1.23.5 strconv; (b) the loop-free kernels eiselLemire64 and atof64exact are proved equivalent, for every (mantissa, exponent, sign) argument, to the pinned strconv functions of the same name by running both SSA bodies symbolically on the same arguments and proving all results equal (bits.Mul64, LeadingZeros64, Float64frombits with exact definitions; float multiplication/division as uninterpreted functions applied to equal arguments).",
-   note="Relative proof: correct rounding of strconv itself is assumed (A-strconv), and readFloat (digit scanning, 19-digit truncation), the decimal slow path and the glue in ParseJSONFloatPrefix / ReadFloat64 are NOT under contract - a defect there is invisible to this check (stated in evidence.proved_subset). The reference copy is /verif/ref/strconv (verbatim files + SHA256SUMS).",
-   tech="contract-based deductive verification: ground table obligations + relational equivalence of loop-free go/ssa bodies with a pinned reference, z3/cvc5",
+   text="Proof, relative to the pinned Go 1.23.5 strconv, of every part of the float path that a contract can pin down: (a) every row of detailedPowersOfTen, float64pow10, powtab, leftcheats is a ground obligation (= mathematical definition computed with exact big-integer arithmetic, = reference copy); (b) the loop-free kernels eiselLemire64 and atof64exact are proved equivalent to strconv's for every argument (both SSA bodies run symbolically on the same arguments); (c) the decimal slow path - floatBits, Shift, leftShift, rightShift, prefixIsLessThan, trim, shouldRoundUp, RoundedInteger, and set under a precondition proved at its call site - is proved lock-step equivalent to strconv's, loop head by loop head (product program: same control flow, same results, same memory); (d) ReadFloat64 / ParseJSONFloatPrefix / readFloat are simulated against the master JSON transducer: success (or only a range error) exactly on an RFC 8259 number token, offset just after the literal; (e) readFloat's mantissa / exponent / sign / truncation flag equal the number registers of the specification run; (f) ParseJSONFloatPrefix's decision structure (exact path, Eisel-Lemire with the mantissa+1 confirmation, slow path, overflow error) is a postcondition over the callees' result functions.",
+   note="Relative proof: correct rounding of strconv's kernels is assumed (A-strconv); that the number registers (value of the first 19 digits, digit count, point position, saturating exponent) denote the literal is positional notation by definition; that the decision structure rounds correctly given correct kernels is the published argument, not machine-checked. Reference copy: /verif/ref/strconv (verbatim files + SHA256SUMS). Concrete replays compare ReadFloat64 bit for bit with strconv.ParseFloat on a corpus of boundary literals and 3M pseudo-random ones.",
+   tech="contract-based deductive verification: ground table obligations, relational (product-program) equivalence of go/ssa bodies with a pinned reference, simulation against a specification transducer with number registers, postconditions over pure callee result functions; z3/cvc5",
    ref="DESIGN.md section 6 (C04)"),
  "C11": dict(
    text="Proof for every input: if the specification accepts (which by the C02 contract, re-proved inside this check, is exactly when SkipValue succeeds, with p the spec's end offset) then skipValueFast/SkipValueFast return a nil error and the same end offset. The real skipValueFast (65 cut points x 256 bytes) is simulated against the master transducer under the hypothesis accepts(data): its stack height is related to the number of open frames of the same kind as the outermost container (two counters added to the spec run), its return states to the kind of the outermost container, strings are stepped over in lock step with the spec's string states, and the nesting limit of 10000 cannot trigger because the same-kind depth is bounded by the total depth.",
